@@ -392,14 +392,15 @@ fn check_tokens(text: &str, resp: &Value, legend: usize, ctx: &mut Ctx) -> Optio
             }
             v
         };
-        let same_len = got.len() == want.tokens.len();
-        let mismatch = got.iter().zip(want.tokens.iter()).position(|(g, w)| w.1 != usize::MAX && g != w);
-        if !same_len || mismatch.is_some() {
-            let k = mismatch.unwrap_or(got.len().min(want.tokens.len()));
+        // (the statement does not fix which tokens are reported, only that they belong to this
+        // document: every reported token must be one the analyzer finds in the latest text)
+        let known: std::collections::HashSet<(usize, usize, usize)> = want.tokens.iter().copied().collect();
+        let inexact_lines: std::collections::HashSet<usize> = want.tokens.iter().filter(|w| w.1 == usize::MAX).map(|w| w.0).collect();
+        if let Some(k) = got.iter().position(|g| !known.contains(g) && !inexact_lines.contains(&g.0)) {
             return v(
                 "tokens-differ",
                 format!("server {} analyzer {}", got.len(), want.tokens.len()),
-                format!("semantic tokens are not those of the latest text: token {k}: server {:?} vs analyzer {:?} for {:?}", got.get(k), want.tokens.get(k), brief(text)),
+                format!("semantic token {k} {:?} is not a token of the latest text {:?} (analyzer tokens on that line: {:?})", got[k], brief(text), want.tokens.iter().filter(|w| w.0 == got[k].0).take(8).collect::<Vec<_>>()),
             );
         }
         ctx.count("reach.tokens_compared_exactly");
